@@ -95,8 +95,8 @@ def run_case(case):
             for c in df1.columns:
                 a, b = np.asarray(df1[c], dtype=float), np.asarray(df2[c], dtype=float)
                 cells += len(a)
-                if not np.array_equal(a, b):
-                    k = int(np.nonzero(a != b)[0][0])
+                if not np.array_equal(a, b, equal_nan=True):      # nan: value of a state whose continuation reads a -inf entry
+                    k = int(np.nonzero(~((a == b) | (np.isnan(a) & np.isnan(b))))[0][0])
                     vs.append({"clause": "'solve_and_simulate' returns the same frame as solve then 'simulate'", "detail": f"column {c} row {k}: {a[k]} vs {b[k]}"})
                     break
         # second call on the same function object after changing a value *in place* in the same params dict
